@@ -234,8 +234,11 @@ fn text_fuzz(r: &mut Report, rng: &mut Rng, w: &gen::GWorld) {
     let (real, _) = outcome_of_real(&w.md, &files, rng.chance(1, 2));
     r.count(&format!("textfuzz:{kind}:{}", real.split('@').next().unwrap()));
     if real.starts_with("panic") && r.prop == "C15" {
-        let site = if real.contains("unknown-criterion") { "dangling-reference" } else if real.contains("implies-itself") { "criteria-cycle" } else { "other" };
-        r.fail("oracle", &format!("C15/textfuzz-panic@{site}"), format!("damaged {which} (kind {kind}) crashes: {real}"), &format!("--- {which}\n{}", files[which]));
+        // same sites as the injected defects: name the unchecked site the damage produced
+        let site = if real.contains("unknown-criterion") {
+            match which { "imports.lock" => "lock-audit", "audits.toml" => "trusted", _ => "config-dangling-reference" }
+        } else if real.contains("implies-itself") { "criteria-cycle" } else if real.contains("dup-criteria") { "criteria-builtin-redefined" } else { "other" };
+        r.fail("oracle", &format!("C15/panic@{site}"), format!("damaged {which} (kind {kind}) crashes: {real}"), &format!("--- {which}\n{}", files[which]));
     }
 }
 
@@ -243,7 +246,7 @@ pub fn run(r: &mut Report) {
     let mut d = Driver::spawn();
     let (shard, nshards) = shard();
     r.rule = "stores = generated worlds (locked view) with one structural defect injected at one of 13 sites (undefined criterion in exemptions / policy criteria, dev-criteria, dependency-criteria / implies / local audits / local wildcard audits / trusted / imports.lock audits and wildcard audits; implication cycle; built-in redefined; wildcard end date beyond the cap), written with the real serialiser and loaded with the real loader; plus text-level damage (truncation, deleted/duplicated line, wrong type, unknown field, renamed definition); non-trivial = a defect was injected; distinct by file contents".into();
-    let n = if r.thorough() { 9000 } else { 900 } / nshards;
+    let n = if r.thorough() { 24000 } else { 3000 } / nshards;
     let mut rng = Rng::new(r.seed.wrapping_add(shard.wrapping_mul(2750159)) ^ 0xC15);
     for i in 0..n {
         let mut crng = rng.fork();
